@@ -435,6 +435,7 @@ func check(prop string, spec propSpec, tier string, seed int64, scratch string) 
 		first *result
 		viol  violation
 		n     int
+		alts  []*result // further failing runs with the same signature
 	}
 	groups := map[string]*group{}
 	for fi := range failures {
@@ -449,6 +450,8 @@ func check(prop string, spec propSpec, tier string, seed int64, scratch string) 
 			if g == nil {
 				g = &group{sig: v.Sig, first: f, viol: v}
 				groups[v.Sig] = g
+			} else if len(g.alts) < 6 {
+				g.alts = append(g.alts, f)
 			}
 			g.n++
 		}
@@ -475,44 +478,59 @@ func check(prop string, spec propSpec, tier string, seed int64, scratch string) 
 	// minimise + verify unknown ones
 	nviol := 0
 	exit := 0
+	nonReplayable := 0
 	os.MkdirAll(filepath.Join(evidenceDir, "replays"), 0o755)
 	for gi, g := range unknown {
-		if gi >= 3 {
-			fmt.Printf("... %d further distinct violation signatures not minimised\n", len(unknown)-3)
+		if nviol >= 3 || gi >= 10 {
+			fmt.Printf("... %d further distinct violation signatures not minimised\n", len(unknown)-gi)
 			break
 		}
-		rf := map[string]any{"property": prop, "signature": g.sig, "violation": g.viol.Text, "seed": g.first.Seed, "program": g.first.Program, "tape": g.first.Tape, "history": g.first.HistText, "tree_hash": th}
-		b, _ := json.MarshalIndent(rf, "", " ")
-		raw := filepath.Join(scratch, fmt.Sprintf("raw%d.json", gi))
-		os.WriteFile(raw, b, 0o644)
-		name := fmt.Sprintf("%s-%s-%d.json", prop, sanitizeName(g.sig), g.first.Seed)
-		final := filepath.Join(evidenceDir, "replays", name)
-		sb := "30s"
-		if tier == "thorough" {
-			sb = "120s"
-		}
-		_, sout, serr := runWorker(scratch, []string{"-shrink", raw, "-shrinkout", final, "-shrinkbudget", sb}, "")
-		if serr != nil {
-			fmt.Fprintf(os.Stderr, "minimiser failed: %v\n%s\n", serr, tail(sout, 3000))
-			os.WriteFile(final, b, 0o644)
-		}
-		for _, l := range strings.Split(sout, "\n") {
-			if strings.HasPrefix(l, "shrink:") {
-				fmt.Println(l)
+		cands := append([]*result{g.first}, g.alts...)
+		var final string
+		reproduced := false
+		var lastOut string
+		for ci, cand := range cands {
+			rf := map[string]any{"property": prop, "signature": g.sig, "violation": g.viol.Text, "seed": cand.Seed, "program": cand.Program, "tape": cand.Tape, "history": cand.HistText, "tree_hash": th}
+			b, _ := json.MarshalIndent(rf, "", " ")
+			raw := filepath.Join(scratch, fmt.Sprintf("raw%d_%d.json", gi, ci))
+			os.WriteFile(raw, b, 0o644)
+			name := fmt.Sprintf("%s-%s-%d.json", prop, sanitizeName(g.sig), cand.Seed)
+			final = filepath.Join(evidenceDir, "replays", name)
+			// does it reproduce at all in a fresh process? (a run may have
+			// depended on state an earlier run left behind in its worker process)
+			_, rout, _ := runWorker(scratch, []string{"-replay", raw}, "")
+			lastOut = rout
+			if !strings.Contains(rout, "REPRODUCED property="+prop) || strings.Contains(rout, "NOT-REPRODUCED") {
+				continue
 			}
-		}
-		// replay in a fresh process
-		_, rout, _ := runWorker(scratch, []string{"-replay", final}, "")
-		if !strings.Contains(rout, "REPRODUCED property="+prop) || strings.Contains(rout, "NOT-REPRODUCED") {
-			// try the unminimised one
-			os.WriteFile(final, b, 0o644)
+			sb := "30s"
+			if tier == "thorough" {
+				sb = "120s"
+			}
+			_, sout, serr := runWorker(scratch, []string{"-shrink", raw, "-shrinkout", final, "-shrinkbudget", sb}, "")
+			if serr != nil {
+				fmt.Fprintf(os.Stderr, "minimiser failed: %v\n%s\n", serr, tail(sout, 3000))
+				os.WriteFile(final, b, 0o644)
+			}
+			for _, l := range strings.Split(sout, "\n") {
+				if strings.HasPrefix(l, "shrink:") {
+					fmt.Println(l)
+				}
+			}
+			// replay the minimised file in a fresh process
 			_, rout, _ = runWorker(scratch, []string{"-replay", final}, "")
 			if !strings.Contains(rout, "REPRODUCED property="+prop) || strings.Contains(rout, "NOT-REPRODUCED") {
-				fmt.Fprintf(os.Stderr, "non-replayable violation %s (seed %d):\n%s\n", g.sig, g.first.Seed, tail(rout, 3000))
-				fmt.Println("cannot decide: a violation did not reproduce from its replay file (harness trouble)")
-				os.Remove(final)
-				return 2
+				// fall back to the unminimised one (which did reproduce)
+				os.WriteFile(final, b, 0o644)
 			}
+			g.first = cand
+			reproduced = true
+			break
+		}
+		if !reproduced {
+			fmt.Fprintf(os.Stderr, "non-replayable violation %s (%d runs tried, first seed %d):\n%s\n", g.sig, len(cands), g.first.Seed, tail(lastOut, 3000))
+			nonReplayable++
+			continue
 		}
 		nviol++
 		exit = 1
@@ -586,6 +604,10 @@ func check(prop string, spec propSpec, tier string, seed int64, scratch string) 
 		agg.Runs, distinct, agg.Steps, int(float64(agg.Runs)/searchS*3600), float64(agg.VirtualNs)/1e9, agg.Faults, wall, buildS, nviol)
 	if agg.Runs == 0 {
 		fmt.Println("cannot decide: no run completed")
+		return 2
+	}
+	if exit == 0 && nonReplayable > 0 {
+		fmt.Printf("cannot decide: %d violation signature(s) did not reproduce from any of their replay files in a fresh process (state left behind by earlier runs of a worker process, or harness trouble); see stderr\n", nonReplayable)
 		return 2
 	}
 	return exit
